@@ -328,6 +328,34 @@ def run_seq(prop, tier, seed, model=True):
         known.extend(k2)
         extra_cov['interleavings_of_racing_creations'] = n2
     if prop == 'C10':
+        # "requests answered with an error change no generation", also when a database error made it fail
+        import multiprocessing as mp
+        from pv import faults
+        ctx = mp.get_context('spawn')
+        with ctx.Pool(1) as pool:
+            nitems, _single = pool.apply(faults.corpus_for_model)
+        fjobs = [{'mode': 'fault', 'indices': list(range(w, nitems, 12)), 'kinds': ['generic'], 'pairs': 0}
+                 for w in range(12) if list(range(w, nitems, 12))]
+        try:
+            with ctx.Pool(len(fjobs)) as pool:
+                fres = pool.map(faults.worker, fjobs, chunksize=1)
+        except tlc.TLCError as ex:
+            raise Machinery(str(ex))
+        for r in fres:
+            for bad in r['bad']:
+                mons = [m for m in bad['monitors'] if m.startswith('C10_')]
+                if not mons:
+                    continue
+                sig = {'engine': 'fault', 'op': bad['req']['op'], 'kind': bad['fault']['kind'],
+                       'monitors': ','.join(mons), 'status': bad['status']}
+                why = '%s: %s with %s at statement %d (%s) answered %s' % (
+                    ','.join(mons), bad['label'], bad['fault']['kind'], bad['fault']['k'], bad['fault']['at'], bad['status'])
+                f = findings.lookup(prop, sig)
+                if f:
+                    known.append((f, why))
+                else:
+                    violations.append((bad, why, sig))
+        extra_cov['requests_failed_by_an_injected_database_error'] = sum(r['n'] for r in fres)
         # generations never decrease: also on every commit of racing requests
         n2 = 0
         for ck in ('C06', 'C05'):
